@@ -845,6 +845,42 @@ fn custom_wp_point(c: &CustomWpCase, obs: &mut Obs) -> PropResult {
             }
         }};
     }
+    // a user-defined RGB space (primaries, white point) over such a white: the matrix is derived at run time from the
+    // primaries and must put RGB (1, 1, 1) on the white point itself (Y = 0.25 here), greys on multiples of it, and
+    // agree with the derivation from the published primaries
+    {
+        type DimSpace = Linear<(enc::Srgb, WpDim)>;
+        let w = [0.96422 * 0.25, 0.25, 0.82521 * 0.25];
+        let col = |p: [f64; 2]| [p[0] / p[1], 1.0, (1.0 - p[0] - p[1]) / p[1]];
+        let prim = rf::SRGB_PRIM;
+        let (r, g, b) = (col(prim[0]), col(prim[1]), col(prim[2]));
+        let m = [[r[0], g[0], b[0]], [r[1], g[1], b[1]], [r[2], g[2], b[2]]];
+        let sc = rf::mul(&rf::inv(&m), w);
+        let want_m = [[sc[0] * r[0], sc[1] * g[0], sc[2] * b[0]], [sc[0] * r[1], sc[1] * g[1], sc[2] * b[1]], [sc[0] * r[2], sc[1] * g[2], sc[2] * b[2]]];
+        for rgb in [[1.0, 1.0, 1.0], [c.g, c.g, c.g], c.c] {
+            let want = rf::mul(&want_m, rgb);
+            if c.f32_ {
+                let x = Xyz::<WpDim, f32>::from_color_unclamped(Rgb::<DimSpace, f32>::new(rgb[0] as f32, rgb[1] as f32, rgb[2] as f32));
+                let d = (x.x as f64 - want[0]).abs().max((x.y as f64 - want[1]).abs()).max((x.z as f64 - want[2]).abs());
+                ensure!(d <= 2e-6, "Rgb<Linear<(Srgb, dim white)>, f32> {:?} -> Xyz {:?}, the matrix derived from the primaries and the white point gives {:?}", rgb, x, want);
+                let back = Rgb::<DimSpace, f32>::from_color_unclamped(x);
+                let d = (back.red as f64 - rgb[0]).abs().max((back.green as f64 - rgb[1]).abs()).max((back.blue as f64 - rgb[2]).abs());
+                ensure!(d <= 2e-5, "Rgb<Linear<(Srgb, dim white)>, f32> {:?} -> Xyz -> Rgb {:?}", rgb, back);
+            } else {
+                let x = Xyz::<WpDim, f64>::from_color_unclamped(Rgb::<DimSpace, f64>::new(rgb[0], rgb[1], rgb[2]));
+                let d = (x.x - want[0]).abs().max((x.y - want[1]).abs()).max((x.z - want[2]).abs());
+                ensure!(d <= 1e-12, "Rgb<Linear<(Srgb, dim white)>> {:?} -> Xyz {:?}, the matrix derived from the primaries and the white point gives {:?}", rgb, x, want);
+                let back = Rgb::<DimSpace, f64>::from_color_unclamped(x);
+                let d = (back.red - rgb[0]).abs().max((back.green - rgb[1]).abs()).max((back.blue - rgb[2]).abs());
+                ensure!(d <= 1e-10, "Rgb<Linear<(Srgb, dim white)>> {:?} -> Xyz -> Rgb {:?}", rgb, back);
+                // white of the space -> L* = 100, neutral
+                if rgb == [1.0, 1.0, 1.0] {
+                    let lab = Lab::<WpDim, f64>::from_color_unclamped(x);
+                    ensure!((lab.l - 100.0).abs() <= 1e-9 && lab.a.abs() <= 1e-9 && lab.b.abs() <= 1e-9, "white of Linear<(Srgb, dim white)> -> Lab {:?}", lab);
+                }
+            }
+        }
+    }
     let percent = [95.047, 100.0, 108.883];
     let dim = [0.96422 * 0.25, 0.25, 0.82521 * 0.25];
     match (c.wp, c.f32_) {
